@@ -264,6 +264,12 @@ def sig_of(prop, v):
 def check(prop, tier, replay=None):
     t0 = time.time()
     with C.Scratch(prop) as scratch:
+        violations, cov, drift, assumptions = collect(prop, tier, scratch, replay)
+        return C.conclude(prop, tier, 'model_checking', cov, t0, violations, assumptions=assumptions, drift=drift)
+
+
+def collect(prop, tier, scratch, replay=None):
+    if True:
         inputs = None
         if replay:
             inputs = [json.load(open(replay))['input']]
@@ -298,7 +304,5 @@ def check(prop, tier, replay=None):
             wall_parts=r['times'])
         drift = ['input %s: observed outcome not among the %d outcomes of the model: %s' % (
             d['id'], d['model_outcomes'], json.dumps(d['observed'], sort_keys=True)) for d in r['drift']]
-        return C.conclude(prop, tier, 'model_checking', cov, t0, violations,
-                          assumptions=['scripted shards answer as sidecars do (consistent reports)',
-                                       'MaxHead in {0,10}: float thresholds equal the integer ones of the spec'],
-                          drift=drift)
+        return violations, cov, drift, ['scripted shards answer as sidecars do (consistent reports)',
+                                        'MaxHead in {0,10}: float thresholds equal the integer ones of the spec']
